@@ -106,10 +106,9 @@ pub fn chamfer(size: f64, oversize: f64) -> Pt2s {
 ///
 /// If you want to use a Viewer use QuadraticBezier2D struct instead.
 pub fn quadratic_bezier(start: Pt2, control: Pt2, end: Pt2, segments: u64) -> Pt2s {
-    let delta = 1.0 / segments as f64;
     let mut points = Pt2s::new();
     for i in 0..(segments + 1) {
-        let t = i as f64 * delta;
+        let t = i as f64 / segments as f64;
         points.push(start * (1.0 - t) * (1.0 - t) + control * t * (1.0 - t) * 2.0 + end * t * t);
     }
     points
@@ -119,10 +118,9 @@ pub fn quadratic_bezier(start: Pt2, control: Pt2, end: Pt2, segments: u64) -> Pt
 ///
 /// If you want to use a Viewer use CubicBezier2D struct instead.
 pub fn cubic_bezier(start: Pt2, control1: Pt2, control2: Pt2, end: Pt2, segments: u64) -> Pt2s {
-    let delta = 1.0 / segments as f64;
     let mut points = Pt2s::new();
     for i in 0..(segments + 1) {
-        let t = i as f64 * delta;
+        let t = i as f64 / segments as f64;
         points.push(
             start * (1.0 - t) * (1.0 - t) * (1.0 - t)
                 + control1 * t * (1.0 - t) * (1.0 - t) * 3.0
